@@ -37,7 +37,7 @@ for sid in sorted(os.listdir(SRC)):
     ck = checks(d)
     caught = sorted(k for k, r in ck.items() if r["violations"] > 0)
     meta = {
-        "id": sid, "breaks_property": sid.rstrip("b"),
+        "id": sid, "breaks_property": sid.rstrip("bc"),
         "files_changed": m.get("files_changed") or m.get("files") or v.get("crates"),
         "what_it_breaks": m.get("what_it_breaks") or m.get("what") or m.get("description"),
         "needs_to_manifest": m.get("needs_to_manifest") or m.get("needs"),
